@@ -121,6 +121,16 @@ theorem call_funcs (fn : Expr) (args : List Expr) (base : Nat) (st : CState) (r 
   simp only [withConst_funcs]
   exact pureEs_funcs args base st _ hp h1
 
+/-- `x++` / `x--` register no function -/
+theorem postfix_funcs (n op : Str) (base : Nat) (st : CState) (r : List Instr × CState)
+    (h : compileExpr (.postfix n op) base st = .ok r) : r.2.funcs = st.funcs := by
+  simp only [compileExpr] at h
+  split at h
+  · simp only [pure, Except.pure] at h; cases h; simp only [withConst_funcs]
+  · split at h
+    · simp only [pure, Except.pure] at h; cases h; simp only [withConst_funcs]
+    · cases h
+
 mutual
   /-- no function definition inside -/
   def ndE : Expr → Bool
@@ -279,7 +289,17 @@ mutual
       compileStmts ss base st = .ok r → r.2.funcs = st.funcs
     | [], base, st, r, _, _, h => by simp only [compileStmts, pure, Except.pure] at h; cases h; rfl
     | s :: rest, base, st, r, hs, hn, h => by
-      simp only [pureSs, Bool.and_eq_true] at hs
+      by_cases hpair : IsPair s rest
+      · obtain ⟨e, n, op, rest', rfl, rfl⟩ := hpair
+        simp only [pureSs, Bool.and_eq_true] at hs
+        simp only [ndSs, Bool.and_eq_true] at hn
+        simp only [compileStmts, compileStmt, bind_ok_eq, pure, Except.pure] at h
+        obtain ⟨⟨c, st1⟩, h1, ⟨cs, st2⟩, ⟨⟨ci, sti⟩, hi, ⟨cr, str⟩, hr, hcs⟩, h3⟩ := h
+        cases h3; cases hcs
+        have e1 := pureE_funcs e base st _ hs.1.2 h1
+        have e2 : sti.funcs = st1.funcs := postfix_funcs n op _ _ _ hi
+        exact ((ndSs_funcs rest' _ _ _ hs.2 hn.2.2 hr).trans e2).trans e1
+      rw [pureSs_other s rest hpair, Bool.and_eq_true] at hs
       simp only [ndSs, Bool.and_eq_true] at hn
       simp only [compileStmts, bind_ok_eq, pure, Except.pure] at h
       obtain ⟨⟨c, st1⟩, h1, ⟨cs, st2⟩, h2, h3⟩ := h
